@@ -118,6 +118,20 @@ func load(repo string, pkgPaths []string) *Verifier {
 		os.Exit(2)
 	}
 	t0 := time.Now()
+	if mode != packages.LoadAllSyntax {
+		// dependencies that go/packages had to type-check from source (no export data) come with
+		// syntax but without full type information: treat them like export-data packages
+		roots := map[*packages.Package]bool{}
+		for _, p := range pkgs {
+			roots[p] = true
+		}
+		packages.Visit(pkgs, nil, func(p *packages.Package) {
+			if !roots[p] {
+				p.Syntax = nil
+				p.TypesInfo = nil
+			}
+		})
+	}
 	prog, _ := ssautil.AllPackages(pkgs, ssa.NaiveForm|ssa.InstantiateGenerics)
 	// build function bodies only for murex packages: callees elsewhere are used through contracts
 	for _, p := range prog.AllPackages() {
